@@ -103,3 +103,78 @@ package unmarshal
 //@   loop 5:
 //@     invariant rectTs(p.tsSpl.ts)
 //@     modifies fields(p.tsSpl.ts)
+
+// ---------------------------------------------------------------- Loki JSON push (both stream layouts)
+
+// Buffers of the stream being decoded: one slot per entry in each of the four arrays.
+//@ spec fn bufOK(p *pushRequestDec) bool = sameLen(p.TsNs, p.String, p.Value, p.Types) && knownTypes(p.Types)
+
+//@ fieldfunc pushRequestDec.onEntries(labels, timestampsNS, message, value, types)
+//@   requires same-length: sameLen(timestampsNS, message, value, types)
+//@   requires known-types: knownTypes(types)
+//@   modifies nothing
+
+// customErrors constructors: never nil.
+//@ func parseTime
+//@   modifies nothing
+//@ func sanitizeLabels
+//@   modifies nothing
+//@ func parseLabelsLokiFormat
+//@   modifies nothing
+
+// ["<ts>", "<line>"(, <value>)]: exactly one row is appended for an accepted entry.
+//@ func (*pushRequestDec).decodeStreamValue [C03]
+//@   requires bufOK(p)
+//@   modifies p.TsNs, p.String, p.Value, p.Types
+//@   ensures bufOK(p)
+//@   ensures one-row: result == nil ==> len(p.TsNs) == old(len(p.TsNs)) + 1
+//@   ensures rejected: result != nil ==> len(p.TsNs) == old(len(p.TsNs))
+//@ func (*pushRequestDec).decodeStreamValue$1
+//@   requires tp >= 0 && tp <= 3
+//@   modifies j, tsNs, str, val, err, tp
+
+// {"ts": .., "line": .., "value": ..}
+//@ func (*pushRequestDec).decodeStreamEntry [C03]
+//@   requires bufOK(p)
+//@   modifies p.TsNs, p.String, p.Value, p.Types
+//@   ensures bufOK(p)
+//@   ensures one-row: result == nil ==> len(p.TsNs) == old(len(p.TsNs)) + 1
+//@ func (*pushRequestDec).decodeStreamEntry$1
+//@   requires tp >= 0 && tp <= 3
+//@   modifies tsNs, str, val, err, tp
+
+//@ func (*pushRequestDec).decodeStreamValues [C03]
+//@   requires bufOK(p)
+//@   modifies p.TsNs, p.String, p.Value, p.Types
+//@   ensures bufOK(p)
+//@ func (*pushRequestDec).decodeStreamValues$1 [C03]
+//@   requires bufOK(p)
+//@   modifies p.TsNs, p.String, p.Value, p.Types
+//@   ensures bufOK(p)
+
+//@ func (*pushRequestDec).decodeStreamEntries [C03]
+//@   requires bufOK(p)
+//@   modifies p.TsNs, p.String, p.Value, p.Types
+//@   ensures bufOK(p)
+//@ func (*pushRequestDec).decodeStreamEntries$1 [C03]
+//@   requires bufOK(p)
+//@   modifies p.TsNs, p.String, p.Value, p.Types
+//@   ensures bufOK(p)
+
+//@ func (*pushRequestDec).decodeStreamStream
+//@   modifies p.Labels
+//@ func (*pushRequestDec).decodeStreamLabels
+//@   modifies p.Labels
+
+//@ func (*pushRequestDec).decodeStream [C03]
+//@   requires bufOK(p)
+//@   modifies p.TsNs, p.String, p.Value, p.Types, p.Labels
+//@   ensures bufOK(p)
+//@ func (*pushRequestDec).decodeStream$1 [C03]
+//@   requires bufOK(p)
+//@   modifies p.TsNs, p.String, p.Value, p.Types, p.Labels
+//@   ensures bufOK(p)
+
+// One stream object: buffers are emptied, filled by decodeStream and handed to
+// the row builder, which requires them to be aligned.
+//@ func (*pushRequestDec).Decode$1$1 [C03]
